@@ -34,7 +34,7 @@ func init() {
 				"histories_over_case_sensitive_alphabets": 1000, "uniform_columns_in_case_sensitive_or_protein_alphabets": 1000}
 		},
 		Assumptions: []string{
-			"Multi.SetOffset(o) moves every row by the same amount, either o minus the offset recorded in the container or o minus the old Start(); what a refused (malformed) AppendColumns/AppendEach leaves behind is not judged",
+			"Multi.SetOffset(o) moves every row by the same amount, either o minus the offset recorded in the container or o minus the old Start(); an AppendColumns call that reports an error (a column of the wrong height among several) has supplied no letters: the container must be as it was; what a refused AppendEach leaves behind is not judged",
 			"grids handed to the constructors are private copies (the statement speaks about AppendColumns/AppendEach buffers only)",
 			"alignment.QSeq.Column applies its quality threshold: the column letter view is compared only for letters at or above it, ColumnQL always",
 			"column-stored alignments stay at offset 0; Truncate/Subseq are exercised on multi.Multi, whose methods they are",
@@ -65,7 +65,7 @@ func c07Case(r *obs.Run, i int) {
 	}
 	nops := 1 + rng.Intn(6)
 	done := 0
-	for k := 0; k < nops && !h.failed; k++ {
+	for k := 0; k < nops && !h.failed && !h.ended; k++ {
 		before := len(h.Ops)
 		if h.m.isSet() {
 			h.opAppendEach()
@@ -97,7 +97,7 @@ func c07Case(r *obs.Run, i int) {
 				}
 			}
 		}
-		if len(h.Ops) == before || h.failed {
+		if len(h.Ops) == before || h.failed || h.ended {
 			continue
 		}
 		done++
